@@ -1554,6 +1554,194 @@ def combo_stream(ctx, cat):
     return n
 
 
+# ------------------------------------------------------------------------------------------------ caller data: aliasing, dtype, layout (S)
+# The rate classes are constructed from a dict of arrays.  Whatever the representation of those arrays (float64 C,
+# Fortran order, a strided view of a larger buffer, float32, int64) the object must be a function of the *numbers* only,
+# must not modify the caller's dict / arrays, and must not keep looking at them: overwriting the caller's arrays after
+# construction, or building a second object from the same dict, must not change a single bit of any evaluation.
+ARRAY_KEYS = {'grid2': ['ne', 'te', 'rate'], 'grid3': ['ne', 'te', 'td', 'rate'], 'beam': ['e', 'n', 't', 'sen', 'st'],
+              'beamCX': ['eb', 'ti', 'ni', 'z', 'b', 'qeb', 'qti', 'qni', 'qz', 'qb']}
+REPRESENTATIONS = ('c64', 'fortran', 'strided', 'float32', 'int64', 'lists')
+
+
+def construct(spec, data, wl, ex):
+    import cherab.openadas.rates as RT
+    from cherab.core.atomic import elements as E
+    cls = getattr(RT, spec['cls'])
+    name = spec['cls']
+    if name in ('LineRadiationPower', 'ContinuumPower', 'CXRadiationPower'):
+        return cls(E.carbon, 2, data, extrapolate=ex)
+    if name == 'BeamCXPEC':
+        return cls(1, wl, data, extrapolate=ex)
+    if name == 'BeamEmissionPEC':
+        return cls(data, wl, extrapolate=ex)
+    if spec['wl']:
+        return cls(wl, data, extrapolate=ex)
+    return cls(data, extrapolate=ex)
+
+
+def integer_table(rng, shape):
+    """a table all of whose numbers are integers (so that an int64 representation holds the same numbers)"""
+    def ax(n, lo):
+        return [float(lo * 10 ** i) for i in range(n)]
+
+    def vals(shp):
+        out = np.zeros(shp)
+        for idx in itertools.product(*[range(k) for k in shp]):
+            out[idx] = float(rng.randint(2, 900))
+        return out.tolist()
+    if shape == 'grid2':
+        return dict(ne=ax(3, 100), te=ax(3, 1), rate=vals((3, 3)))
+    if shape == 'grid3':
+        return dict(ne=ax(3, 100), te=ax(2, 1), td=ax(3, 2), rate=vals((3, 2, 3)))
+    if shape == 'beam':
+        return dict(e=ax(3, 10), n=ax(3, 1000), t=ax(3, 1), sen=vals((3, 3)), st=vals((3,)), sref=4.0)
+    return dict(eb=ax(3, 10), ti=[5.0, 50.0, 90.0], ni=[100.0, 300.0, 800.0], z=[1.0, 2.0, 4.0], b=[1.0, 2.0, 3.0],
+                qeb=vals((3,)), qti=[8.0, 9.0, 11.0], qni=[13.0, 12.0, 10.0], qz=[10.0, 12.0, 13.0], qb=[12.0, 13.0, 14.0], qref=12.0)
+
+
+def represent(tab, shape, rep):
+    """-> (data dict for the constructor, list of (key, array to scribble on) that are the caller's storage, reference float64 numbers)"""
+    data, store, ref = {}, [], {}
+    for k, v in tab.items():
+        if k not in ARRAY_KEYS[shape]:
+            data[k] = ref[k] = v
+            continue
+        a = np.array(v, np.float64)
+        if rep == 'c64':
+            arr = a.copy(order='C')
+            store.append((k, arr))
+        elif rep == 'fortran':
+            arr = np.asfortranarray(a.copy())
+            store.append((k, arr))
+        elif rep == 'strided':
+            big = np.full(tuple(2 * n + 1 for n in a.shape), -7.0)
+            sl = tuple(slice(1, 2 * n + 1, 2) for n in a.shape)
+            big[sl] = a
+            arr = big[sl]
+            store.append((k, big))
+        elif rep == 'float32':
+            arr = a.astype(np.float32)
+            a = arr.astype(np.float64)
+            store.append((k, arr))
+        elif rep == 'int64':
+            arr = a.astype(np.int64)
+            a = arr.astype(np.float64)
+            store.append((k, arr))
+        else:
+            arr = a.tolist()
+        data[k] = arr
+        ref[k] = a.copy()
+    return data, store, ref
+
+
+def snapshot(data):
+    out = {}
+    for k, v in data.items():
+        if isinstance(v, np.ndarray):
+            out[k] = (id(v), v.dtype.str, v.shape, v.strides, v.flags.writeable, v.flags.c_contiguous, v.tobytes())
+        else:
+            out[k] = (id(v), repr(v))
+    return out
+
+
+FLOAT32_DEV = [0.0]
+
+
+def same_value(a, b, rep):
+    """bit-identical; for float32 *inputs* the constructors do their log10 / division in float32 (NumPy keeps the dtype), which
+    costs eps32 * |ln y| ~ 5e-6 relative on top of the rounding of the inputs: outside the sentence (the provider always hands
+    float64 arrays to the classes), tolerated here and reported as the number `float32_constructor_arithmetic_max_rel_dev`"""
+    if rep != 'float32' or a[0] != 'ok' or b[0] != 'ok':
+        return same_result(a, b)
+    return close(a[1], b[1], 2e-5)
+
+
+def alias_stream(ctx, cat):
+    rng = ctx.rng
+    seen = set()
+    n = 0
+    for rep_i in range(ctx.n(1, 4)):
+        for name, spec in cat.items():
+            shape, cls = spec['shape'], spec['cls']
+            for rep in REPRESENTATIONS:
+                ex = rng.random() < 0.5
+                wl = _sig(rng.uniform(90.0, 1200.0)) if spec['wl'] else None
+                if rep == 'int64':
+                    tab = integer_table(rng, shape)
+                else:
+                    tab = gen_table(rng, shape, {'grid2': (3, 4), 'grid3': (3, 2, 3), 'beam': (3, 3, 3), 'beamCX': (3, 3, 3, 3, 3)}[shape])
+                    if shape == 'beamCX':
+                        tab = tab['metastables'][sorted(tab['metastables'])[0]]
+                data, store, ref = represent(tab, shape, rep)
+                d = dict(kind='alias', rate_class=cls, accessor=name, representation=rep, extrapolate=ex, wavelength=wl, table=tab)
+                before = snapshot(data)
+                try:
+                    r = construct(spec, data, wl, ex)
+                except Exception as e:  # noqa
+                    ctx.count('alias:%s:rejected-%s' % (rep, type(e).__name__))
+                    if rep != 'lists':
+                        fail(ctx, 'C07:%s:rejects-array-representation:%s' % (cls, rep),
+                             '%s constructed from %s arrays raised %s: %s' % (cls, rep, type(e).__name__, str(e)[:120]), d)
+                    elif snapshot(data) != before:
+                        fail(ctx, 'C07:%s:constructor-modifies-caller-data' % cls, '%s (rejected nested lists) changed the caller\'s dict' % cls, d)
+                    continue
+                after = snapshot(data)
+                if after != before:
+                    ks = sorted(set(before) ^ set(after)) + sorted(k for k in before if k in after and before[k] != after[k])
+                    fail(ctx, 'C07:%s:constructor-modifies-caller-data' % cls,
+                         '%s(%s arrays) changed the caller\'s data dict / arrays: %s' % (cls, rep, ks), dict(d, changed=ks))
+                wt = {k: (v.tolist() if isinstance(v, np.ndarray) else v) for k, v in ref.items()}
+                pts = [p for p in eval_points(rng, shape, wt, 3) if p[0] != 'knot'][:14] + rng.sample([p for p in eval_points(rng, shape, wt, 0) if p[0] == 'knot'], 6)
+                res0 = [impl_eval(r, p[1]) for p in pts]
+                # (b) a function of the numbers only: an object built from private float64 C copies of the same numbers
+                r_ref = construct(spec, {k: (v.copy() if isinstance(v, np.ndarray) else v) for k, v in ref.items()}, wl, ex)
+                res_ref = [impl_eval(r_ref, p[1]) for p in pts]
+                # (c) a second object built from the SAME dict (other extrapolation setting), evaluated in between
+                r2 = None
+                try:
+                    r2 = construct(spec, data, wl, not ex)
+                    res2 = [impl_eval(r2, p[1]) for p in pts]
+                    r2_ref = construct(spec, {k: (v.copy() if isinstance(v, np.ndarray) else v) for k, v in ref.items()}, wl, not ex)
+                    for (kind, args, info), b0, bref in zip(pts, res2, [impl_eval(r2_ref, p[1]) for p in pts]):
+                        if not same_value(b0, bref, rep):
+                            fail(ctx, 'C07:%s:second-object-from-same-dict-differs' % cls,
+                                 'the second %s built from one data dict gives %s at %r, an object built from private copies of the same numbers %s '
+                                 '(the first constructor changed the shared data?)' % (cls, b0, tuple(args), bref), dict(d, args=args, point=kind))
+                            break
+                except Exception as e:  # noqa
+                    fail(ctx, 'C07:%s:second-object-from-same-dict' % cls, 'a second %s from the same data dict raised %s: %s' % (cls, type(e).__name__, str(e)[:100]), d)
+                res_mid = [impl_eval(r, p[1]) for p in pts]
+                # (a) the caller overwrites its storage in place
+                for k, arr in store:
+                    try:
+                        arr[...] = (np.arange(arr.size).reshape(arr.shape) % 5 + 1) * (3 if arr.dtype.kind == 'f' else 2)
+                    except ValueError:
+                        fail(ctx, 'C07:%s:constructor-modifies-caller-data' % cls, '%s left the caller\'s array %r read-only' % (cls, k), dict(d, changed=[k]))
+                res1 = [impl_eval(r, p[1]) for p in pts]
+                for (kind, args, info), a0, aref, amid, a1 in zip(pts, res0, res_ref, res_mid, res1):
+                    n += 1
+                    ctx.count('alias:' + rep)
+                    ctx.case(key=('alias', cls, rep, kind, tuple(f2b(x) for x in args)) if (cls, rep, kind) not in seen else None)
+                    seen.add((cls, rep, kind))
+                    dd = dict(d, args=args, point=kind)
+                    if rep == 'float32' and a0[0] == aref[0] == 'ok' and aref[1] != 0:
+                        FLOAT32_DEV[0] = max(FLOAT32_DEV[0], abs(a0[1] / aref[1] - 1))
+                    if not same_value(a0, aref, rep):
+                        fail(ctx, 'C07:%s:depends-on-array-representation:%s' % (cls, rep),
+                             '%s%r built from %s arrays gives %s, built from float64 C copies of the same numbers %s' % (cls, tuple(args), rep, a0, aref), dd)
+                    if not same_result(a0, amid):
+                        fail(ctx, 'C07:%s:objects-from-one-dict-interfere' % cls,
+                             '%s%r changed from %s to %s after a second %s was built from the same data dict and evaluated' % (cls, tuple(args), a0, amid, cls), dd)
+                    if not same_result(a0, a1):
+                        fail(ctx, 'C07:%s:aliases-caller-arrays:%s' % (cls, rep),
+                             '%s%r changed from %s to %s after the caller overwrote its (%s) arrays in place' % (cls, tuple(args), a0, a1, rep), dd)
+                    if kind == 'knot' and a0[0] == 'ok' and not close(a0[1], expected_at(shape, wt, info['idx'], wl), 2e-5 if rep == 'float32' else 1e-9):
+                        fail(ctx, 'C07:%s:grid-point-value' % cls, '%s (%s arrays) at grid point %r returned %r, stored value after conversion is %r' % (
+                            cls, rep, args, a0[1], expected_at(shape, wt, info['idx'], wl)), dd)
+    return n
+
+
 # ------------------------------------------------------------------------------------------------ repeated calls on one rate object (K + S)
 # The sentence speaks of "every rate object": each call on a live object must behave exactly like the same call on a
 # freshly constructed one (value, or exception kind) -- a rate object that remembers anything from earlier calls
@@ -1815,7 +2003,8 @@ def setup(ctx):
 
 
 def describe(ctx):
-    ctx.rule = ('combo: per class every pair of argument positions x {0, -1, below, above, first knot, last knot}^2, other arguments inside, both extrapolation '
+    ctx.rule = ('alias: every rate class constructed directly from caller-owned float64-C / Fortran / strided-view / float32 / int64 / nested-list data, caller '
+                'overwrites its storage, second object from the same dict, private-copy reference: bit-identical evaluations, caller data untouched; combo: per class every pair of argument positions x {0, -1, below, above, first knot, last knot}^2, other arguments inside, both extrapolation '
                 'settings, judged by the decision table zero-guard > range policy > value; repeat: one live rate object per accessor/shape/extrapolation answering 40-90 calls (in-range, out-of-range, the same out-of-range again, '
                 'in-range again, non-positive, grid points, random order), each against a freshly constructed object; degenerate: flat / all-ones / '
                 'reference-valued components, two-point and accepted single-point axes through the full point set; steep: per accessor and axis, tables swinging 2-4 decades between adjacent knots, four interior points per cell (and, for BeamCXPEC, '
@@ -1871,6 +2060,8 @@ def run(ctx):
         numeric_stream(ctx, cat, plan_numeric(ctx, cat))
         ctx.count('repeat-calls', repeat_stream(ctx, cat))
         ctx.count('combo-calls', combo_stream(ctx, cat))
+        ctx.count('alias-evaluations', alias_stream(ctx, cat))
+        ctx.extra['float32_constructor_arithmetic_max_rel_dev'] = FLOAT32_DEV[0]
         deviants_tie(ctx)
     finally:
         finish_run(ctx)
